@@ -370,9 +370,118 @@ def _gen_positional(rng, cases, counts):
             cases.append(c)
 
 
+# -- histories: fit / fit_transform, transform calls, update calls, and after each of them
+#    transform + inverse_transform of the TRAINING series, an overlapping stretch, the whole series
+
+
+def _hist_ops(rng, n, batches, tail, sp, can_update):
+    """op list over the whole series W (training = W[0:n]; batch i = the next batches[i] values):
+    ["T", a, b] = transform + inverse_transform of W[a:b]; ["U", i, update_params]"""
+    total = n + sum(batches) + tail
+
+    def probes(seen):
+        """stretches worth asking for when `seen` observations are known to the estimator"""
+        r = rng.randint(1, max(1, min(n - 1, 3)))
+        out = [["T", 0, n],                                              # the training series
+               ["T", n - r, min(total, n + rng.randint(1, 3))],         # overlapping its end
+               ["T", 0, total]]                                          # the whole series
+        if seen > n:
+            out.append(["T", n, seen])                                   # the later stretch
+        # two stretches of the SAME length at different phases (anything cached by length or
+        # computed once shows up on the second one)
+        m = rng.randint(2, max(2, min(4, total - 2)))
+        a = rng.randint(0, total - m - 1)
+        b = a + rng.choice([1, 1, sp - 1 or 1, sp + 1])
+        if b + m <= total:
+            out += [["T", a, a + m], ["T", b, b + m]]
+        return out
+
+    ops = []
+    if rng.random() < 0.6:
+        ops.append(["T", 0, n])
+    if rng.random() < 0.5:
+        ops += rng.sample(probes(n)[1:], 1)
+    seen = n
+    if can_update:
+        for i, ln in enumerate(batches):
+            ops.append(["U", i, rng.random() < 0.7])
+            seen += ln
+            ps = probes(seen)
+            rng.shuffle(ps)
+            ops.append(["T", 0, n])          # always: the training series right after the update
+            ops += [x for x in ps if x != ["T", 0, n]][:rng.randint(0, 1)]
+    last = probes(seen)
+    pair = last[-2:] if len(last) >= 2 and last[-1][2] - last[-1][1] == last[-2][2] - last[-2][1] \
+        and last[-2] != ["T", 0, total] else []
+    rest = [x for x in last if x not in pair]
+    rng.shuffle(rest)
+    last = rest[:2] + pair + ([["T", 0, n]] if ["T", 0, n] not in rest[:2] else [])
+    rng.shuffle(last)
+    ops += last
+    return ops
+
+
+def _gen_history(rng, cases, counts):
+    def add(tk, cfg, W, n, batches, tail, sp, can_update):
+        t0 = rng.choice([0, 0, 1, 3, 5, 12, 29, -4])
+        cases.append({"kind": "history", "tk": tk, "cfg": cfg, "t0": t0, "k": 0,
+                      "idx": rng.choice(["range", "int", "int"]
+                                        + (["period"] if tk in ("deseason", "cond", "adaptor") else [])),
+                      "first": rng.choice(["fit", "fit_transform", "fit_transform"]),
+                      "n": n, "W": W, "batches": batches if can_update else [],
+                      "ops": _hist_ops(rng, n, batches, tail, sp, can_update)})
+
+    for i in range(counts["detrend"]):
+        n = rng.randint(6, 12)
+        batches = [rng.randint(2, 5) for _ in range(rng.choice([1, 1, 2]))]
+        tail = rng.randint(0, 2)
+        # the slope changes after the training series, so a refit moves the trend
+        W = [_dy(rng, -1, 1) + 0.25 * j for j in range(n)]
+        W += [W[-1] + 2.0 + 1.5 * j + _dy(rng, -1, 1) for j in range(sum(batches) + tail)]
+        if i % 4 == 3:
+            strat = rng.choice(["last", "mean", "drift"])
+            nv = {"strategy": strat}
+            if strat != "drift" and rng.random() < 0.4:
+                nv["sp"] = 2
+            if strat == "mean" and "sp" not in nv and rng.random() < 0.5:
+                nv["window_length"] = 3
+            cfg = {"naive": nv}
+        else:
+            cfg = {"degree": rng.choice([0, 1, 2, 1, None])}
+        add("detrend", cfg, W, n, batches, tail, 4, True)
+    for tk in ("deseason", "cond"):
+        for _ in range(counts[tk]):
+            sp = rng.randint(2, 5)
+            n = 2 * sp + rng.randint(0, sp + 1) if tk == "deseason" else 3 * sp + rng.randint(0, sp)
+            batches = [rng.randint(1, sp + 1) for _ in range(rng.choice([1, 2]))]
+            tail = rng.randint(0, 2)
+            W = _seasonal_series(rng, n + sum(batches) + tail, sp, True)
+            cfg = {"sp": sp, "model": rng.choice(["additive", "multiplicative"])}
+            if tk == "cond":
+                cfg["test"] = rng.choice(["auto", "true", "false"])
+            add(tk, cfg, W, n, batches, tail, sp, True)
+    for _ in range(counts["adaptor"]):
+        n = rng.randint(6, 10)
+        W = _plain_series(rng, n + rng.randint(3, 6), False)
+        add("adaptor", _adaptor_cfg(rng), W, n, [], len(W) - n, 3, False)
+    for _ in range(counts["optional"]):
+        ik = rng.choice(["deseason", "detrend", "adaptor"])
+        sp = rng.randint(2, 4)
+        n = 2 * sp + rng.randint(0, sp)
+        W = _seasonal_series(rng, n + rng.randint(3, 6), sp, True)
+        inner = {"kind": ik, "cfg": ({"sp": sp, "model": rng.choice(["additive", "multiplicative"])}
+                                     if ik == "deseason" else _adaptor_cfg(rng) if ik == "adaptor"
+                                     else {"degree": rng.choice([0, 1, 2])})}
+        add("optional", {"passthrough": rng.random() < 0.4, "inner": inner}, W, n, [],
+            len(W) - n, sp, False)
+
+
 def gen_cases(rng, tier):
     q = tier == "quick"
-    cases = []
+    cases, hist = [], []
+    _gen_history(rng, hist, {"detrend": 32 if q else 300, "deseason": 18 if q else 160,
+                              "cond": 8 if q else 60, "adaptor": 8 if q else 60,
+                              "optional": 8 if q else 60})
     _gen_deseason(rng, cases, 3 if q else 12)
     _gen_cond(rng, cases, 40 if q else 400)
     _gen_detrend(rng, cases, 70 if q else 700)
@@ -383,7 +492,14 @@ def gen_cases(rng, tier):
     _gen_positional(rng, cases, {"hampel": 24 if q else 200, "imputer": 33 if q else 220,
                                  "acf": 10 if q else 80, "pacf": 10 if q else 80,
                                  "cos": 8 if q else 60})
-    return cases
+    # history cases are the expensive ones in Coq: spread them evenly over the shards
+    step = max(1, len(cases) // max(1, len(hist)))
+    out = []
+    for i, c in enumerate(cases):
+        if i % step == 0 and hist:
+            out.append(hist.pop(0))
+        out.append(c)
+    return out + hist
 
 
 # ------------------------------------------------------------------------------------------------
@@ -447,6 +563,9 @@ def _make(kind, cfg):
     if kind == "detrend":
         from sktime.forecasting.trend import PolynomialTrendForecaster
         from sktime.transformations.series.detrend import Detrender
+        if "naive" in cfg:
+            from sktime.forecasting.naive import NaiveForecaster
+            return Detrender(NaiveForecaster(**cfg["naive"]))
         if cfg["degree"] is None:
             return Detrender()
         return Detrender(PolynomialTrendForecaster(degree=cfg["degree"]))
@@ -515,6 +634,8 @@ def _fitted(kind, cfg, t):
         if kind == "cond":
             f["is_seasonal"] = bool(t.is_seasonal_)
         return f
+    if kind == "detrend" and "naive" in cfg:
+        return {}
     if kind == "detrend":
         lr = t.forecaster_.regressor_.steps[-1][1]
         coef = [float(c) for c in np.ravel(lr.coef_)]
@@ -596,7 +717,67 @@ def _scenario(case, k):
     return r
 
 
+def _hist_describe(case, upto):
+    """the calls made before op number `upto`, as readable text"""
+    txt = ["%s(train)" % case["first"]]
+    for o in case["ops"][:upto]:
+        if o[0] == "U":
+            txt.append("update(batch%d, update_params=%s)" % (o[1], o[2]))
+        else:
+            txt.append("transform+inverse(W[%d:%d])" % (o[1], o[2]))
+    return "; ".join(txt)
+
+
+def _scenario_history(case):
+    """run the op list on one estimator (`t`, sees every call) and, in parallel, the fit / update
+    calls only on a second one (`clean`); at every transform op also ask deep copies of `clean`
+    for the same stretch and for the whole series"""
+    import copy
+    tk, cfg, idx, t0, n, W = case["tk"], case["cfg"], case["idx"], case["t0"], case["n"], case["W"]
+    y = _series(W[:n], t0, idx)
+    whole = _series(W, t0, idx)
+    t, clean = _make(tk, cfg), _make(tk, cfg)
+    probes, states = [], []
+    if case["first"] == "fit_transform":
+        zt = t.fit_transform(y)
+        clean.fit(y)
+        probes.append({"op": -1, "a": 0, "b": n, "nupd": 0, "zt": _canon(zt),
+                       "zi": _canon(t.inverse_transform(zt)),
+                       "zc": _canon(copy.deepcopy(clean).transform(y)),
+                       "zw": _canon(copy.deepcopy(clean).transform(whole)),
+                       "fitted": _fitted(tk, cfg, t)})
+    else:
+        t.fit(y)
+        clean.fit(y)
+    states.append({"after": "fit", "fitted": _fitted(tk, cfg, t)})
+    at, nupd = n, 0
+    for j, o in enumerate(case["ops"]):
+        if o[0] == "U":
+            ln = case["batches"][o[1]]
+            b = _series(W[at:at + ln], t0 + at, idx)
+            t.update(b, update_params=o[2])
+            clean.update(b, update_params=o[2])
+            at += ln
+            nupd += 1
+            states.append({"after": j, "params": o[2], "fitted": _fitted(tk, cfg, t)})
+            continue
+        a, bnd = o[1], o[2]
+        z = _series(W[a:bnd], t0 + a, idx)
+        zt = t.transform(z)
+        probes.append({"op": j, "a": a, "b": bnd, "nupd": nupd, "zt": _canon(zt),
+                       "zi": _canon(t.inverse_transform(zt)),
+                       "zc": _canon(copy.deepcopy(clean).transform(z)),
+                       "zw": _canon(copy.deepcopy(clean).transform(whole)),
+                       "fitted": _fitted(tk, cfg, t)})
+    return {"probes": probes, "states": states}
+
+
 def run_impl(case):
+    if case["kind"] == "history":
+        try:
+            return _scenario_history(case)
+        except Exception as e:
+            return {"err": "%s: %s" % (type(e).__name__, str(e)[:160])}
     try:
         out = {"base": _scenario(case, 0)}
         if case["k"] != 0:
@@ -646,6 +827,8 @@ def _expected(kind, cfg, fitted, t0, times, z):
         if cfg["model"] == "additive":
             return "seasonal-phase", [x - c for x, c in zip(z, comp)]
         return "seasonal-phase", [x / c if c != 0 else None for x, c in zip(z, comp)]
+    if kind == "detrend" and "coef" not in fitted:
+        return None, None            # NaiveForecaster-based trend: no value model
     if kind == "detrend":
         coef = [_f(c) for c in fitted["coef"]]
         return "trend-not-at-passed-time-points", [
@@ -731,10 +914,75 @@ def _check_shift(case, b, s):
     return None
 
 
+def _check_history(case, out):
+    tk, cfg, t0, W = case["tk"], case["cfg"], case["t0"], case["W"]
+    for p in out["probes"]:
+        a, b = p["a"], p["b"]
+        z = W[a:b]
+        times = [t0 + i for i in range(a, b)]
+        hist = _hist_describe(case, p["op"]) if p["op"] >= 0 else "nothing"
+        what = "transform(W[%d:%d]) after [%s]" % (a, b, hist)
+        zt_idx, zt = p["zt"][0], [_f(v) for v in p["zt"][1]]
+        if zt_idx != times:
+            return "index-not-preserved: %s returned index %s for input index %s" % (
+                what, zt_idx, times)
+        zi_idx, zi = p["zi"][0], [_f(v) for v in p["zi"][1]]
+        if zi_idx != times:
+            return "inverse-index-not-preserved: %s for %s" % (zi_idx, times)
+        # round trip at every point of the history
+        for t, x, u, v in zip(times, z, zt, zi):
+            if _finite(u) and not _close(x, v):
+                return ("%s: at time %d (offset %d from the training start) inverse_transform("
+                        "transform(z)) = %r, z = %r; %s"
+                        % ("inverse-not-identity-after-update" if p["nupd"] else
+                           "inverse-not-identity", t, t - t0, v, x, what))
+        # the same call on a copy of the estimator that saw only the fit / update calls
+        zc_idx, zc = p["zc"][0], [_f(v) for v in p["zc"][1]]
+        if zc_idx != times or len(zc) != len(zt) or not all(_close(u, v) for u, v in zip(zt, zc)):
+            bad = [i for i, (u, v) in enumerate(zip(zt, zc)) if not _close(u, v)][:1]
+            return ("transform-depends-on-call-history: %s gave %s, an estimator that saw the same "
+                    "fit / update calls but none of the transform / inverse_transform calls gives "
+                    "%s%s" % (what, zt, zc, (" (first difference at time %d)" % times[bad[0]])
+                              if bad else ""))
+        # transform of a stretch = transform of the whole series restricted to the stretch
+        zw_idx, zw = p["zw"][0], [_f(v) for v in p["zw"][1]]
+        if zw_idx != [t0 + i for i in range(len(W))]:
+            return "index-not-preserved: transform(whole series) returned index %s" % zw_idx
+        part = zw[a:b]
+        if not all(_close(u, v) for u, v in zip(zt, part)):
+            return ("transform-depends-on-call-history: %s gave %s but transform(whole series) "
+                    "restricted to that stretch is %s" % (what, zt, part))
+        clause, exp = _expected(tk, cfg, p["fitted"], t0, times, z)
+        if clause and exp is None:
+            return "%s: fitted component has the wrong length" % clause
+        if clause:
+            for t, u, e in zip(times, zt, exp):
+                if e is not None and not _close(e, u):
+                    return ("%s: at time %d (offset %d from the training start) %s gave %r, "
+                            "expected %r from the fitted object's own component"
+                            % (clause, t, t - t0, what, u, e))
+    # update(update_params=False) must not re-estimate anything (polynomial trend, seasonal_)
+    st = out["states"]
+    for prev, cur in zip(st, st[1:]):
+        if cur.get("params") is False and tk in ("detrend", "deseason", "cond") \
+                and "naive" not in cfg:
+            for key, v in cur["fitted"].items():
+                w = prev["fitted"].get(key)
+                same = (v == w) if not isinstance(v, list) or not v or not isinstance(v[0], list) \
+                    else (len(v) == len(w) and all(_close(_f(x), _f(y)) for x, y in zip(v, w)))
+                if not same:
+                    return ("update-params-false-refitted: update(update_params=False) (op %d) "
+                            "changed the fitted %s from %s to %s"
+                            % (cur["after"], key, w, v))
+    return None
+
+
 def oracle(case, out):
     if "err" in out:
         # clause = exception type, so that shrinking keeps the same kind of failure
         return "unexpected-%s" % out["err"]
+    if case["kind"] == "history":
+        return _check_history(case, out)
     f = _check_run(case, out["base"], 0)
     if f:
         return f
@@ -747,10 +995,40 @@ def oracle(case, out):
 
 
 def nontrivial(case, out):
+    if case["kind"] == "history":
+        return "err" not in out and len(out["probes"]) >= 2
     return "err" not in out and len(out["base"]["zt"][1]) >= 1
 
 
+def _shrink_history(c):
+    ops = c["ops"]
+    last_u = max([j for j, o in enumerate(ops) if o[0] == "U"], default=-1)
+    for j in range(len(ops)):
+        # any transform op may go; of the updates only the last (batches are consecutive)
+        if ops[j][0] == "T" or j == last_u:
+            d = dict(c)
+            d["ops"] = ops[:j] + ops[j + 1:]
+            if d["ops"]:
+                yield d
+    if c["first"] == "fit_transform":
+        d = dict(c)
+        d["first"] = "fit"
+        yield d
+    for key, val in (("t0", 0), ("idx", "range")):
+        if c[key] != val:
+            d = dict(c)
+            d[key] = val
+            yield d
+    if c["tk"] == "optional" and not c["cfg"]["passthrough"]:
+        d = dict(c)
+        d["tk"], d["cfg"] = c["cfg"]["inner"]["kind"], c["cfg"]["inner"]["cfg"]
+        yield d
+
+
 def shrink(case):
+    if case["kind"] == "history":
+        yield from _shrink_history(case)
+        return
     c = dict(case)
     if c["k"] != 0:
         for nk in (0, 1, -c["t0"]):
@@ -858,9 +1136,38 @@ def _inner_case(kind, cfg, fitted, t0, ups, z, zt, zi):
     return None
 
 
+def _coq_history(case, out):
+    tk, cfg, t0, W = case["tk"], case["cfg"], case["t0"], case["W"]
+    terms = []
+    for p in out["probes"]:
+        a, b = p["a"], p["b"]
+        z = _cser([t0 + i for i in range(a, b)], W[a:b])
+        ups, at = [], case["n"]
+        for o in case["ops"][:max(p["op"], 0)]:
+            if o[0] == "U":
+                ups.append(t0 + at)
+                at += case["batches"][o[1]]
+        if tk == "detrend" and "naive" in cfg:
+            if any(v is None or isinstance(v, str) for v in p["zt"][1]):
+                continue            # NaN at the first in-sample points: no claim there
+            term = "COpaque %s %s %s" % (z, _ciser(p["zt"]), _ciser(p["zi"]))
+        else:
+            term = _inner_case(tk, cfg, p["fitted"], t0, ups, z, _ciser(p["zt"]), _ciser(p["zi"]))
+        if term:
+            terms.append(term)
+    if not terms:
+        return None
+    acc = terms[-1]
+    for term in reversed(terms[:-1]):
+        acc = "CSeq (%s) (%s)" % (term, acc)
+    return acc
+
+
 def coq_case(case, out):
     if "err" in out:
         return None
+    if case["kind"] == "history":
+        return _coq_history(case, out)
     kind, k = case["kind"], case["k"]
     if kind in POSITIONAL or kind in LAGGED:
         if "shift" not in out:
@@ -881,6 +1188,12 @@ def coq_case(case, out):
 
 
 def coq_model_term(case):
+    if case["kind"] == "history":
+        t0, sp = case["t0"], case["cfg"].get("sp")
+        idx = czlist([t0 + i for i in range(len(case["W"]))])
+        if sp:
+            return "(%s, map (fun t => phase %s %s t) %s)" % (idx, cz(t0), cz(sp), idx)
+        return idx
     t0 = case["t0"]
     z = _cser(_case_times(case), case["z"])
     sp = case["cfg"].get("sp") or (case["cfg"].get("inner", {}).get("cfg", {}).get("sp"))
@@ -895,6 +1208,23 @@ def distribution(cases, results):
     for c, r in zip(cases, results):
         o = r.get("out") or {}
         d["%s:%s" % (c["kind"], "error" if "err" in o or not o else "ran")] += 1
+        if c["kind"] == "history":
+            d["history:%s" % c["tk"]] += 1
+            d["history:first=%s" % c["first"]] += 1
+            us = [x for x in c["ops"] if x[0] == "U"]
+            d["history:updates=%d" % len(us)] += 1
+            if any(x[2] for x in us):
+                d["history:update-refits"] += 1
+            if any(x[2] is False for x in us):
+                d["history:update-without-params"] += 1
+            seen_u = False
+            for x in c["ops"]:
+                seen_u = seen_u or x[0] == "U"
+                if seen_u and x[0] == "T" and (x[1], x[2]) == (0, c["n"]):
+                    d["history:training-series-transformed-after-update"] += 1
+                    break
+            d["history:probes"] += len((o or {}).get("probes", []))
+            continue
         if c["kind"] in ("deseason", "cond"):
             sp = c["cfg"]["sp"]
             d["index:%s" % c["idx"]] += 1
